@@ -2,7 +2,8 @@
 
 (1) TLC explores every history of <=K tasks (create / launch / continue / unknown type x persist x nowait x tag {None, t} x
     process class {Fin, Exc, Wait; Late: finishes, then fails in on_finished, so that its future is replaced; Chain: a WorkChain
-    whose context - a saved member - changes while it runs}) interleaved with turns of the event loop, resumes and checkpoints taken by the environment,
+    whose context - a saved member - changes while it runs; Opt: its only input port is optional and has no default, so that
+    constructed without arguments its parsed inputs - a saved member the user code reads - are the EMPTY mapping}) interleaved with turns of the event loop, resumes and checkpoints taken by the environment,
     for every configuration (persister: none / InMemory / Pickle; loader: default / custom, its aliases known to the configured
     instance only; launcher built with / without a caller-supplied load_context; constructor-argument style), and checks
     the operational mirror of ProcessLauncher against the declarative properties CreateOK, LaunchOK, ContinueOK, NowaitReply,
@@ -11,8 +12,8 @@
     (harness/launcher_real.py): half of them by calling the launcher directly, the others through
     controller -> in-process communicator wrapped by LoopCommunicator -> launcher as task subscriber (RemoteProcessController and
     RemoteProcessThreadController, create+continue pairs also as one execute_process call).  After every action the reply
-    futures, the persister content (state, outputs, context and error of the process each checkpoint describes), the processes with
-    their step traces, contexts and errors, and the loader log are compared with the specification.
+    futures, the persister content (state, parsed inputs, outputs, context and error of the process each checkpoint describes), the
+    processes with their parsed inputs, step traces, contexts and errors, and the loader log are compared with the specification.
 """
 import collections
 import concurrent.futures
@@ -31,7 +32,7 @@ VERIF = os.path.dirname(os.path.dirname(os.path.dirname(os.path.abspath(__file__
 # repairs present in /repo (identifiers of spec/Launcher.tla); none so far
 FIXES = []
 
-INVS = ['TypeOK', 'NoUnlistedDeviation', 'CreatedNeverRuns', 'StartedFromSnapshot', 'ReachTermination', 'FutureIsOutcome', 'WaitingReply', 'LoaderUsed',
+INVS = ['TypeOK', 'NoUnlistedDeviation', 'CreatedNeverRuns', 'StartedFromSnapshot', 'InputsKept', 'ReachTermination', 'FutureIsOutcome', 'WaitingReply', 'LoaderUsed',
         'NoLoaderFailure']
 PROPS = ['RejectOK', 'CreateOK', 'LaunchOK', 'ContinueOK', 'NowaitReply', 'RepliesStable', 'LoopNeverPersists']
 
@@ -42,12 +43,17 @@ ARGS = ['none', 'pos', 'kw', 'bad']
 OLD_CLASSES = ['Fin', 'Exc', 'Wait']
 # Late: FINISHED, then on_finished raises -> EXCEPTED with a replaced process future; Chain: WorkChain with working data in self.ctx
 NEW_CLASSES = ['Late', 'Chain']
+# Opt: the only input port is optional and has no default: with the argument style 'none' the parsed inputs are the empty mapping
+OPT_CLASSES = ['Opt']
 ALL_CLASSES = OLD_CLASSES + NEW_CLASSES
 
 ASSUMPTIONS = [
     'process classes: Fin (emits outputs and finishes), Exc (raises), Wait (waits for resume(), then finishes), Late (finishes, then '
-    'raises in on_finished: ends EXCEPTED with a replaced future), Chain (WorkChain, outline of two steps, working data in self.ctx); '
-    'the quick tier explores histories over {Fin, Exc, Wait} and over {Late, Chain} separately, the thorough tier also mixed ones; '
+    'raises in on_finished: ends EXCEPTED with a replaced future), Chain (WorkChain, outline of two steps, working data in self.ctx), '
+    'Opt (input port v optional and without default - every other class declares it with default 0 -, run reads self.inputs.get and '
+    "'v' in self.inputs); "
+    'the quick tier explores histories over {Fin, Exc, Wait}, over {Late, Chain} and over {Opt} separately, the thorough tier also '
+    'mixed ones ({Opt, Wait} with three tasks, {Opt, Fin, Chain} with two saves, {Opt, Exc, Late} replayed); '
     'constructor arguments '
     'inputs={v: 7} positionally / by keyword / absent / invalid (one style per history)',
     'configurations are consistent: the InMemoryPersister gets the launcher\'s loader, the sender identifies classes with the same '
@@ -319,7 +325,8 @@ def run(tier, seed):
     none_d, none_c, mem_d, mem_c, pic_d, pic_c = BASES
     if tier == 'quick':
         mcs = [dict(name='MC_C17_K2', cfgs=full, k=2, saves=1, classes=OLD_CLASSES),
-               dict(name='MC_C17_K2_LateChain', cfgs=full, k=2, saves=1, classes=NEW_CLASSES)]
+               dict(name='MC_C17_K2_LateChain', cfgs=full, k=2, saves=1, classes=NEW_CLASSES),
+               dict(name='MC_C17_K2_Opt', cfgs=full, k=2, saves=1, classes=OPT_CLASSES)]
         # replay: no persister (both loaders), custom loader on both persisters WITH a caller-supplied load context (in-memory:
         # keyword arguments, also without the context; pickle: a seeded argument style), default loader on one seeded persister,
         # invalid arguments on one seeded configuration
@@ -331,14 +338,23 @@ def run(tier, seed):
         new = (configs([rng.choice([mem_d, mem_c])], ['kw'], coin())
                + configs([rng.choice([pic_d, pic_c])], [rng.choice(['kw', 'none', 'pos'])], coin())
                + configs([rng.choice([none_d, none_c])], [rng.choice(['kw', 'none', 'pos'])], coin()))
+        # the class with the optional port: constructed WITHOUT arguments (empty parsed inputs) on both persisters (seeded loader
+        # and load context) and without persister, with arguments (seeded style) on one seeded persister
+        opt = (configs([rng.choice([mem_d, mem_c])], ['none'], coin()) + configs([rng.choice([pic_d, pic_c])], ['none'], coin())
+               + configs([rng.choice([none_d, none_c])], ['none'], coin())
+               + configs(rng.sample(BASES[2:], 1), [rng.choice(['kw', 'pos'])], coin()))
         rps = [dict(name='MC_C17_dump_K2', cfgs=sel, k=2, saves=1, classes=OLD_CLASSES),
-               dict(name='MC_C17_dump_K2_LateChain', cfgs=new, k=2, saves=1, classes=NEW_CLASSES)]
+               dict(name='MC_C17_dump_K2_LateChain', cfgs=new, k=2, saves=1, classes=NEW_CLASSES),
+               dict(name='MC_C17_dump_K2_Opt', cfgs=opt, k=2, saves=1, classes=OPT_CLASSES)]
     else:
         # K=3: the load-context dimension in full for keyword arguments, seeded for the other argument styles
         k3 = configs(BASES, ['kw'], both) + [c for a in ('none', 'pos', 'bad') for b in BASES for c in configs([b], [a], coin())]
         mcs = [dict(name='MC_C17_K3', cfgs=k3, k=3, saves=1, classes=OLD_CLASSES),
                dict(name='MC_C17_K3_LateChain', cfgs=k3, k=3, saves=1, classes=NEW_CLASSES + ['Wait']),
-               dict(name='MC_C17_K2_S2', cfgs=full, k=2, saves=2, classes=ALL_CLASSES)]
+               dict(name='MC_C17_K2_S2', cfgs=full, k=2, saves=2, classes=ALL_CLASSES),
+               # the class with the optional port (empty parsed inputs when constructed without arguments), mixed with the others
+               dict(name='MC_C17_K3_Opt', cfgs=k3, k=3, saves=1, classes=OPT_CLASSES + ['Wait']),
+               dict(name='MC_C17_K2_S2_Opt', cfgs=full, k=2, saves=2, classes=OPT_CLASSES + ['Fin', 'Chain'])]
         k2 = configs([none_c, mem_c, pic_c], ARGS, both) + [c for b in (none_d, mem_d, pic_d) for a in ARGS for c in configs([b], [a], coin())]
         rps = [dict(name='MC_C17_dump_K2', cfgs=k2, k=2, saves=1, classes=OLD_CLASSES),
                # three tasks: one seeded configuration with a persister per class family, every transition of the graph covered
@@ -350,6 +366,12 @@ def run(tier, seed):
                     classes=NEW_CLASSES, cover=True),
                # two tasks over all five classes (histories mixing the families): every base configuration, seeded argument
                # style and load context
+               # the optional port: two tasks on every base configuration and argument style (seeded load context), mixed with a
+               # class that raises and one that replaces its future; three tasks without arguments on one seeded persister
+               dict(name='MC_C17_dump_K2_Opt', cfgs=[c for b in BASES for a in ARGS for c in configs([b], [a], coin())], k=2, saves=1,
+                    classes=OPT_CLASSES + ['Exc', 'Late']),
+               dict(name='MC_C17_dump_K3_Opt', cfgs=configs(rng.sample(BASES[2:], 1), ['none'], coin()), k=3, saves=1,
+                    classes=OPT_CLASSES, cover=True),
                dict(name='MC_C17_dump_K2_all', cfgs=[c for b in BASES for c in configs([b], [rng.choice(ARGS[:3])], coin())], k=2,
                     saves=1, classes=ALL_CLASSES)]
 
@@ -417,8 +439,8 @@ def run(tier, seed):
         'states': max(states, 1), 'transitions': max(transitions, 1), 'traces_validated_against_impl': replayed,
         'samples': samples or [{'note': 'no behaviour replayed'}], 'evaluations': replayed, 'distinct_nontrivial': nontrivial,
         'rule': 'a behaviour is one maximal path of a dumped TLC state graph: a configuration and <=K tasks from create/launch/continue/'
-                'unknown x persist x nowait x tag {None,t} x class (quick: the families {Fin,Exc,Wait} and {Late,Chain} in separate graphs), interleaved with runloop / resume / save(instance, tag) (<=1 save); '
-                'every maximal path of the K=2 graphs (thorough: also of a K=2 graph over all five classes, plus paths covering every transition of the K=3 graphs of three seeded '
+                'unknown x persist x nowait x tag {None,t} x class (quick: the families {Fin,Exc,Wait}, {Late,Chain} and {Opt} in separate graphs), interleaved with runloop / resume / save(instance, tag) (<=1 save); '
+                'every maximal path of the K=2 graphs (thorough: also of a K=2 graph over the five classes with a defaulted port and one over {Opt,Exc,Late}, plus paths covering every transition of the K=3 graphs of four seeded '
                 'configurations) is replayed once on a seeded route (direct call or controller->LoopCommunicator->launcher); non-trivial = at least one task constructed or recreated a process; behaviours are '
                 'distinct paths',
         'exhaustive': True, 'model_checking': mc_summ, 'replay': rp_summ, 'replayed_by_route': dict(by_route),
